@@ -3,6 +3,7 @@ import NB.Wire
 import NB.Model.AddSub
 import NB.Model.AsmParams
 import NB.Model.Scalar
+import NB.Model.ScalarD
 namespace NB.Drv.C01
 open NB NB.Wire
 
@@ -13,6 +14,52 @@ def oSubU (a b : Nat) : Except Panic (List Nat) :=
 
 def su := showExcept showLimbs
 def si := showExcept showBigInt
+
+/-! #### api-coverage: scalar addition / subtraction forms (`<type>:<decimal>` tokens), modelled by the digit-level
+     leaves of NB.Model.ScalarD (promotion cast, then `AddAssign/SubAssign<u32|u64|u128>`, `sub2rev` for the
+     scalar-left forms, the BigInt sign cases as written) -/
+
+def styOfName (s : String) : Option STy :=
+  if s == "u8" then some .u8 else if s == "u16" then some .u16 else if s == "u32" then some .u32
+  else if s == "u64" then some .u64 else if s == "u128" then some .u128 else if s == "usize" then some .usize
+  else if s == "i8" then some .i8 else if s == "i16" then some .i16 else if s == "i32" then some .i32
+  else if s == "i64" then some .i64 else if s == "i128" then some .i128 else if s == "isize" then some .isize
+  else none
+
+def parseScalarTok (s : String) : Option (STy × Int) :=
+  match s.splitOn ":" with
+  | [t, v] => do
+    let ty ← styOfName t
+    let x ← parseInt v
+    if ty.InRange x then pure (ty, x) else none
+  | _ => none
+
+def scalarOpOf : String → Option (AOp × SPos × Bool)
+  | "add_s" => some (.add, .bigScalar, false) | "s_add" => some (.add, .scalarBig, true)
+  | "add_assign_s" => some (.add, .assign, false)
+  | "sub_s" => some (.sub, .bigScalar, false) | "s_sub" => some (.sub, .scalarBig, true)
+  | "sub_assign_s" => some (.sub, .assign, false)
+  | _ => none
+
+def scalarHandle (op : String) (args : List String) : Option (String × String) :=
+  match args with
+  | [p, q] => do
+    let (aop, pos, sLeft) ← scalarOpOf (op.drop 2).toString
+    let (a, tv) := if sLeft then (q, p) else (p, q)
+    let (t, s) ← parseScalarTok tv
+    if op.startsWith "u." then do
+      let a ← parseLimbs a
+      if t.signed then none else
+      let x : Nat := if sLeft then s.toNat else val a
+      let y : Nat := if sLeft then val a else s.toNat
+      pure (su (SD.uScalarForm blk aop pos t a s),
+            su (if aop == .add then .ok (ofNat (x + y)) else oSubU x y))
+    else do
+      let a ← parseBigInt a
+      let x : Int := if sLeft then s else a.val
+      let y : Int := if sLeft then a.val else s
+      pure (si (SD.iScalarForm blk aop pos t a s), si (.ok (BigInt.ofInt (if aop == .add then x + y else x - y))))
+  | _ => none
 
 def handle (op : String) (args : List String) : Option (String × String) :=
   match op, args with
@@ -59,6 +106,23 @@ def handle (op : String) (args : List String) : Option (String × String) :=
       | .ok r => "some " ++ showBigInt r
       | .error p => "panic " ++ p.toString
     pure (m, "some " ++ showBigInt (BigInt.ofInt (a.val - b.val)))
+  -- api-coverage: trait impls `CheckedAdd/CheckedSub for BigInt` = `Some(&self + v)` / `Some(&self - v)`
+  | "i.checked_add_t", [a, b] => do
+    let a ← parseBigInt a; let b ← parseBigInt b
+    let m := match BigInt.add blk a b with
+      | .ok r => "some " ++ showBigInt r
+      | .error p => "panic " ++ p.toString
+    pure (m, "some " ++ showBigInt (BigInt.ofInt (a.val + b.val)))
+  | "i.checked_sub_t", [a, b] => do
+    let a ← parseBigInt a; let b ← parseBigInt b
+    let m := match BigInt.sub blk a b with
+      | .ok r => "some " ++ showBigInt r
+      | .error p => "panic " ++ p.toString
+    pure (m, "some " ++ showBigInt (BigInt.ofInt (a.val - b.val)))
+  -- api-coverage: scalar addition / subtraction forms
+  | "u.add_s", [p, q] | "u.s_add", [p, q] | "u.add_assign_s", [p, q] | "u.sub_s", [p, q] | "u.s_sub", [p, q]
+  | "u.sub_assign_s", [p, q] | "i.add_s", [p, q] | "i.s_add", [p, q] | "i.add_assign_s", [p, q] | "i.sub_s", [p, q]
+  | "i.s_sub", [p, q] | "i.sub_assign_s", [p, q] => scalarHandle op [p, q]
   -- scalar on the left: `u32/u64/u128 - BigUint` (computed inside the big operand's buffer through `sub2rev`)
   | "u.sub_from_u32", [sc, b] | "u.sub_from_u64", [sc, b] => do
     let sc ← parseNat sc; let b ← parseLimbs b
